@@ -11,8 +11,8 @@ import (
 	"bytes"
 	"fmt"
 	"runtime"
-	"strings"
 	"sort"
+	"strings"
 	"sync"
 	"time"
 
@@ -55,6 +55,21 @@ func concProgram(t jsonline.Template, g int, iters int, shared jsonline.Row, sin
 			}
 			row.Set("pad", strings.Repeat(string(rune('a'+g%26)), pad))
 			_ = t.GetExporter(sink).Export(row)
+		}
+		if i%6 == 3 {
+			// the nested object of one's OWN row under the sub-template that declares nothing, filled in place; and a
+			// value offered to the column of the unsupported raw type (refused today)
+			r := t.CreateRowEmpty()
+			switch nested := r.GetOrNil("em").(type) {
+			case jsonline.Row:
+				nested.Set(fmt.Sprintf("owner%d", g), i)
+			case map[string]interface{}:
+				nested[fmt.Sprintf("owner%d", g)] = i
+			}
+			e := r.ImportAtKey("ob", fmt.Sprintf("10.%d.0.%d", g, i%250))
+			sb.WriteString(fmt.Sprintf("%v ", e != nil))
+			sb.WriteString(r.String())
+			sb.WriteString(t.CreateRowEmpty().String())
 		}
 		switch (g + i) % 8 {
 		case 7:
@@ -170,6 +185,9 @@ func genC20(cw *caseWriter, seed uint64, tier string) {
 				cols = append(cols, colDesc{name: "c_" + f, format: f, ty: pick(r, tyNames)})
 			}
 		}
+		// a sub-template that declares nothing, and a column whose raw type the library does not support (declared with a
+		// struct or with a pointer type that has text methods of its own)
+		cols = append(cols, colDesc{name: "em", isSub: true, sub: nil}, colDesc{name: "ob", format: "string", ty: "other"})
 		// the shared template is COLD when the goroutines start (nothing has used it yet); the sequential
 		// reference is computed afterwards on a second, identically built template
 		t := buildTemplate(cols)
